@@ -185,7 +185,9 @@ def translate_dispatch(ctx, tree):
             raise ValueError("%s: unrecognised kernel arguments %s" % (name, args))
         boxes = assigns[args[1]]
         ok_box = ("np.asarray(result.unitcell_vectors,order='c')", "np.asarray(result.unitcell_vectors,order='C')",
-                  "np.ascontiguousarray(result.unitcell_vectors)")
+                  "np.ascontiguousarray(result.unitcell_vectors)",
+                  "np.asarray(result.unitcell_vectors,dtype=np.float32,order='c')", "np.asarray(result.unitcell_vectors,dtype=np.float32,order='C')",
+                  "np.ascontiguousarray(result.unitcell_vectors,dtype=np.float32)")
         self_box = tuple(b.replace("result.", "self.") for b in ok_box)
         if len(boxes) != 1 or boxes[0] not in ok_box + self_box:
             raise ValueError("%s: unrecognised unit-cell argument %s" % (name, boxes))
@@ -443,6 +445,10 @@ def gen_case(rng):
     case["make_whole"] = rng.random() < 0.7
     case["anchors"] = case["others"] = None
     case["sorted_bonds"] = None
+    # how the trajectory got its times (constructor / left to the default 0,1,2.. / assigned afterwards as float32, float64
+    # or a list) and its cell (float32 lengths+angles / double-precision unitcell_vectors)
+    case["time_mode"] = rng.choice(["ctor", "ctor", "ctor", "late32", "late64", "late64", "latelist", "default"])
+    case["cell_mode"] = "vectors64" if rng.random() < 0.15 else "lengths32"
     if case["api"] == "image" and not guessed:
         mols = [list(m) for m in case["mols"]]
         order = sorted(range(len(mols)), key=lambda m: -len(mols[m]))
@@ -545,7 +551,8 @@ def gen_history(rng):
         ops.append(reimage())
     return {"history": True, "frames": sysd["frames"], "bonds": initial, "mol_of": list(range(n)), "ops": ops, "kind": sysd["kind"],
             "numbering": "history", "shapes": sysd["shapes"], "sizes": sysd["sizes"], "api": "history", "inplace": False,
-            "make_whole": True, "anchors": None, "others": None, "sorted_bonds": None}
+            "make_whole": True, "anchors": None, "others": None, "sorted_bonds": None,
+            "time_mode": rng.choice(["ctor", "ctor", "late32", "late64", "latelist", "default"]), "cell_mode": "lengths32"}
 
 
 def expand_history(c, o):
@@ -708,10 +715,11 @@ def summary(case):
             "sizes": case["sizes"], "inplace": case["inplace"], "make_whole": case["make_whole"],
             "explicit_anchors": case["anchors"] is not None, "explicit_sorted_bonds": case["sorted_bonds"] is not None,
             "n_frames": len(case["frames"]), "digest": digest([case["frames"], case["bonds"]]),
-            "history_step": case.get("_step")}
+            "history_step": case.get("_step"), "time_mode": (case.get("_origin") or case).get("time_mode"),
+            "cell_mode": (case.get("_origin") or case).get("cell_mode")}
 
 
-IMPL_KEYS = ("frames", "bonds", "mol_of", "api", "inplace", "make_whole", "anchors", "others", "sorted_bonds", "ops")
+IMPL_KEYS = ("frames", "bonds", "mol_of", "api", "inplace", "make_whole", "anchors", "others", "sorted_bonds", "ops", "time_mode", "cell_mode")
 
 
 def natoms(c):
@@ -835,8 +843,15 @@ def run_cases(ctx, cases):
             # guess_anchor_molecules refuses (no molecule is larger than its own size threshold): no result, no claim
             ctx.count(summary(c), nontrivial=False, bucket="refused/no-anchor-guess")
             continue
+        f64_refused = False
         if o["err"] is not None:
+            # a cell assigned through unitcell_vectors is held in double precision; with inplace=True it reaches the float32
+            # kernels uncast and they refuse it (known finding C11-float64-cell-inplace-refused)
+            f64_refused = (o["err"] == "ValueError" and "Buffer dtype mismatch" in (o.get("msg") or "") and c.get("cell_mode") == "vectors64"
+                           and bool(c["inplace"]))
             fails.append(("error", {"class": o["err"], "msg": o.get("msg")}, None))
+            if o.get("input_changed"):
+                fails.append(("a refused call modified its input", {"changed": o["input_changed"]}, None))
         else:
             if c["inplace"]:
                 if not o["returned_is_self"]:
@@ -846,9 +861,11 @@ def run_cases(ctx, cases):
                     fails.append(("inplace=False returned the receiver or a view of it", None, None))
                 if not (o["orig_xyz_same"] and o["orig_cell_same"] and o["orig_time_same"]):
                     fails.append(("inplace=False modified the original trajectory",
-                                  {k: o[k] for k in ("orig_xyz_same", "orig_cell_same", "orig_time_same")}, None))
+                                  {"changed(bytes or dtype)": o.get("input_changed"), "time_mode": c.get("time_mode"), "cell_mode": c.get("cell_mode")}, None))
             if not (o["res_cell_same"] and o["res_time_same"] and o["orig_cell_same"] and o["orig_time_same"]):
-                fails.append(("unit cells or times changed", {k: o[k] for k in ("res_cell_same", "res_time_same")}, None))
+                fails.append(("unit cells or times changed", dict({k: o[k] for k in ("res_cell_same", "res_time_same")},
+                                                                  input_changed=o.get("input_changed"), time_mode=(c.get("_origin") or c).get("time_mode"),
+                                                                  cell_mode=(c.get("_origin") or c).get("cell_mode")), None))
             for f in range(len(c["frames"])):
                 ks, res, B, new = rec[(ci, f)]
                 fr = o["frames"][f]
@@ -879,6 +896,10 @@ def run_cases(ctx, cases):
                         if np.any(cm < -1e-4) or np.any(cm > tgt * 2 + 1e-4):
                             fails.append(("a non-anchor molecule was not wrapped into the cell", {"frame": f, "molecule": m, "centroid": cm.tolist()}, code))
                             break
+        if "_origin" not in c:
+            iv = ctx.notes.setdefault("coverage_extra", {}).setdefault("input_variants(time/cell/inplace)", {})
+            kv = "%s/%s/%s" % (c.get("time_mode"), c.get("cell_mode"), "inplace" if c["inplace"] else "copy")
+            iv[kv] = iv.get(kv, 0) + 1
         ctx.count(summary(c), nontrivial=moved,
                   bucket="%s%s/%s/%s/%s%s%s" % ("history-step/" if "_origin" in c else "", c["api"], c["kind"], c["numbering"], "inplace" if c["inplace"] else "copy",
                                               "" if c["api"] == "whole" or c["make_whole"] else "/nowhole",
@@ -890,6 +911,8 @@ def run_cases(ctx, cases):
             # the as-found model (attribution is per frame, so that the replay of the case alone gives the same verdict;
             # a run whose frames do not all follow one variant is reported separately as a broken correspondence)
             explained = KNOWN_VARIANT if (desc == "bonded pair left split" and sp == 1 and code in (0, 2, 4)) else None
+            if desc == "error" and f64_refused:
+                explained = "float64_cell_inplace"
             api = "make_molecules_whole" if c["api"] == "whole" else "image_molecules"
             if "_origin" in c:
                 detail = dict(detail or {}, history_step=c["_step"], bonds_at_that_moment=c["bonds"])
